@@ -1600,6 +1600,34 @@ func (p *Posix) CompleteMultipartUpload(ctx context.Context, input *s3.CompleteM
 
 	upiddir := filepath.Join(objdir, uploadID)
 
+	// a wrong object checksum refuses the request: find out before
+	// anything of the object that is replaced is touched (its version is
+	// preserved and, on path-addressed metadata stores, its attributes
+	// are dropped further down)
+	if checksums.Type != "" {
+		var sum string
+		switch checksums.Type {
+		case types.ChecksumTypeComposite:
+			sum = compositeChecksumRdr.Sum()
+		case types.ChecksumTypeFullObject:
+			sum = hashRdr.Sum()
+		}
+		for _, given := range []struct {
+			algo types.ChecksumAlgorithm
+			val  *string
+		}{
+			{types.ChecksumAlgorithmCrc32, input.ChecksumCRC32},
+			{types.ChecksumAlgorithmCrc32c, input.ChecksumCRC32C},
+			{types.ChecksumAlgorithmSha1, input.ChecksumSHA1},
+			{types.ChecksumAlgorithmSha256, input.ChecksumSHA256},
+			{types.ChecksumAlgorithmCrc64nvme, input.ChecksumCRC64NVME},
+		} {
+			if given.algo == checksumAlgorithm && given.val != nil && *given.val != sum {
+				return nil, s3err.GetChecksumBadDigestErr(checksumAlgorithm)
+			}
+		}
+	}
+
 	objname := filepath.Join(bucket, object)
 	dir := filepath.Dir(objname)
 	if dir != "" {
